@@ -102,6 +102,8 @@ func keySets(tier string, rng *Rng, forFs bool) [][]string {
 		{"dir/sub/a", "dir/sub/b", "dir/sub2/c", "dir2/d", "dir-", "dir.", "dir0"},
 		// the top of the code-point range: 4-byte sequences sort after every 3-byte one (keys stay within the characters XML 1.0 can carry)
 		{"docs/\U0001F600.txt", "docs/a", "docs/\uffee", "\U0001F600", "docs/\U0010FFFD", "docs/\u07ff"},
+		// names a directory walk may treat specially: leading dots (not "." and ".." themselves), blanks, a tilde, a trailing dot
+		{"docs/.config", "docs/.cache/x", "docs/a", ".top", ".d/x", "docs/..rc", "docs/ sp", "docs/~bak", "docs/end."},
 	}
 	for _, r := range rich {
 		var clean []string
@@ -170,8 +172,8 @@ func runC03(tier string, seed uint64) {
 			delims = append(delims, "b")
 		}
 		for si, keys := range sets {
-			if fs && si%3 != 0 && len(keys) >= 2 && tier != "thorough" {
-				continue // fs backends: a third of the multi-key sets in the quick tier
+			if fs && si%3 != 0 && len(keys) >= 2 && tier != "thorough" && isSmall(keys) {
+				continue // fs backends: a third of the small-alphabet multi-key sets in the quick tier (every rich set)
 			}
 			for _, k := range keys {
 				s.Put(b, k, []byte("body-of-" + k)[:5+len(k)], nil)
@@ -233,7 +235,7 @@ func runC03(tier string, seed uint64) {
 		}
 		s.end()
 	}
-	sample("key sets: all subsets of size <= 2 of the 18 keys over {a,b,/} (len <= 3, not starting/ending with '/'), seeded subsets of size 3..6, and 6 'rich' sets (a-x a/x a.x; UTF-8 incl. the top of the 3-byte range and 4-byte characters; nested dirs)")
+	sample("key sets: all subsets of size <= 2 of the 18 keys over {a,b,/} (len <= 3, not starting/ending with '/'), seeded subsets of size 3..6, and 6 'rich' sets (a-x a/x a.x; UTF-8 incl. the top of the 3-byte range and 4-byte characters; nested dirs; segments beginning with a dot, a blank, a tilde)")
 	sample("for each set: all 27 prefixes over {a,b,/} of length <= 3 not starting with '/', delimiter none and '/' (and 'b', and the multi-byte characters é and € with an oracle written from the statement, on mem/bolt), V1 or V2; mem runs versioned with delete-marked ghost keys (next to a live key, below it, and behind each delimiter)")
 }
 
